@@ -3924,7 +3924,13 @@ impl Database {
                         .map(|v| {
                             use std::hash::{Hash, Hasher};
                             let mut hasher = std::collections::hash_map::DefaultHasher::new();
-                            format!("{:?}", v).hash(&mut hasher);
+                            match v {
+                                // 0.0 = -0.0 in SQL: one DISTINCT row
+                                OwnedValue::Float(f) if *f == 0.0 => {
+                                    format!("{:?}", OwnedValue::Float(0.0)).hash(&mut hasher)
+                                }
+                                _ => format!("{:?}", v).hash(&mut hasher),
+                            }
                             hasher.finish()
                         })
                         .collect();
